@@ -68,6 +68,94 @@ theorem roundTrip_self (t : RawTriangle) (h : ∀ c ∈ t, cellOk c = true) : Sp
   | cons c cs ih =>
     simp only [Spec.cellsEqv, Bool.and_eq_true]
     exact ⟨cellEqv_self c (h c (by simp)), ih (fun c' h' => h c' (by simp [h']))⟩
+/-! ### the pool is sorted -/
+
+theorem bytesLe_total (a b : Bytes) : (bytesLe a b || bytesLe b a) = true := by
+  induction a generalizing b with
+  | nil => simp [bytesLe]
+  | cons x xs ih =>
+    cases b with
+    | nil => simp [bytesLe]
+    | cons y ys =>
+      simp only [bytesLe, UInt8.lt_iff_toNat_lt]
+      by_cases h1 : x.toNat < y.toNat
+      · simp [h1]
+      · by_cases h2 : y.toNat < x.toNat
+        · simp [h1, h2]
+        · simp only [h1, h2, if_false]; exact ih ys
+
+theorem bytesLe_trans (a b c : Bytes) : bytesLe a b = true → bytesLe b c = true → bytesLe a c = true := by
+  induction a generalizing b c with
+  | nil => intros; simp [bytesLe]
+  | cons x xs ih =>
+    cases b with
+    | nil => simp [bytesLe]
+    | cons y ys =>
+      cases c with
+      | nil => simp [bytesLe]
+      | cons z zs =>
+        simp only [bytesLe, UInt8.lt_iff_toNat_lt]
+        intro h1 h2
+        by_cases a1 : x.toNat < y.toNat <;> by_cases a2 : y.toNat < x.toNat <;>
+          by_cases b1 : y.toNat < z.toNat <;> by_cases b2 : z.toNat < y.toNat <;>
+          by_cases c1 : x.toNat < z.toNat <;> by_cases c2 : z.toNat < x.toNat <;>
+          simp only [a1, a2, b1, b2, c1, c2, if_true, if_false] at h1 h2 ⊢ <;>
+          first
+          | rfl
+          | (exfalso; omega)
+          | (exact Bool.noConfusion h1)
+          | (exact Bool.noConfusion h2)
+          | exact ih ys zs h1 h2
+
+theorem bytesLe_antisymm (a b : Bytes) : bytesLe a b = true → bytesLe b a = true → a = b := by
+  induction a generalizing b with
+  | nil => cases b <;> simp [bytesLe]
+  | cons x xs ih =>
+    cases b with
+    | nil => simp [bytesLe]
+    | cons y ys =>
+      simp only [bytesLe, UInt8.lt_iff_toNat_lt]
+      by_cases a1 : x.toNat < y.toNat <;> by_cases a2 : y.toNat < x.toNat <;>
+        simp only [a1, a2, if_true, if_false]
+      · exfalso; omega
+      · simp
+      · simp
+      · intro h1 h2
+        have : x = y := UInt8.toNat_inj.mp (by omega)
+        rw [this, ih ys h1 h2]
+
+theorem dedupAdj_sorted (l : List Bytes) (h : l.Pairwise (fun a b => bytesLe a b = true)) :
+    (dedupAdj l).Pairwise (fun a b => bytesLe a b = true ∧ a ≠ b) := by
+  induction l with
+  | nil => simp [dedupAdj]
+  | cons a r ih =>
+    cases r with
+    | nil => simp [dedupAdj]
+    | cons b r' =>
+      have hp := List.pairwise_cons.mp h
+      unfold dedupAdj
+      split
+      · exact ih hp.2
+      · rename_i hab
+        refine List.pairwise_cons.mpr ⟨?_, ih hp.2⟩
+        intro x hx
+        have hx' : x ∈ b :: r' := (mem_dedupAdj _ _).mp hx
+        refine ⟨hp.1 x hx', ?_⟩
+        intro hax
+        subst hax
+        have hab' : bytesLe a b = true := hp.1 b (by simp)
+        have hba : bytesLe b a = true := by
+          rcases List.mem_cons.mp hx' with rfl | hmem
+          · exact hab'
+          · exact (List.pairwise_cons.mp hp.2).1 a hmem
+        exact hab (bytesLe_antisymm a b hab' hba)
+
+/-- the key list handed to the pool is strictly ascending in byte (= code point) order -/
+theorem sortedKeys_sorted (t : RawTriangle) :
+    (sortedKeys t).Pairwise (fun a b => bytesLe a b = true ∧ a ≠ b) :=
+  dedupAdj_sorted _ (List.pairwise_mergeSort bytesLe_trans bytesLe_total _)
+
+
 /-! ### a concrete witness used by the non-vacuity examples of C05 / C19: a 2-slice incremental
 triangle with all eight value kinds, a non-ASCII string, a `None` string, a 2-d array, a limit -/
 
